@@ -1,14 +1,1096 @@
-//! C19 — stub, to be implemented.
+//! C19 — UDP flows are sticky, isolated, bounded and torn down once.
+//!
+//! modelsim on the sans-io `sozu_lib::protocol::udp::UdpManager`. The harness plays the I/O shell:
+//! it feeds `ManagerInput`s with an injected clock, drains the `Output` stream after every call,
+//! keeps the shell's one-shot timer from the `ArmTimer` stream, and judges every output against a
+//! reference model written from the property statement and the documentation
+//! (`lib/src/protocol/udp/LIFECYCLE.md`, the doc comments of `mod.rs`/`flow.rs`, `doc/configure.md`).
+//! Every datagram payload is unique (direction tag + seed + counter), so each `SendToBackend` /
+//! `SendToClient` is attributable to exactly one input datagram.
 #![allow(dead_code)]
+use std::collections::{BTreeMap, BTreeSet};
+use std::net::{IpAddr, Ipv4Addr, Ipv6Addr, SocketAddr};
+use std::time::{Duration, Instant};
+
+use serde::{Deserialize, Serialize};
 use serde_json::Value;
+use sozu_lib::protocol::udp::{CloseReason, ClusterConfig, ConfigEvent, DropReason, FlowId, ManagerInput, MetricEvent, Output, UdpManager};
+
 use crate::framework::*;
+use crate::prng::{Prng, TraceHash};
 
 pub struct C19;
 
+const MS: u64 = 1_000_000;
+const PP_SIG: [u8; 12] = [0x0D, 0x0A, 0x0D, 0x0A, 0x00, 0x0D, 0x0A, 0x51, 0x55, 0x49, 0x54, 0x0A];
+/// every non-empty generated datagram carries a 12-byte identity header
+const HDR: usize = 12;
+
+// ------------------------------------------------------------------------------------------- plan
+
+/// Cluster knobs (the pure-core `ClusterConfig`), `name == 0` = no cluster configured.
+#[derive(Clone, Debug, Serialize, Deserialize, PartialEq)]
+pub struct Cl {
+    pub name: u8,
+    pub with_port: bool,
+    pub responses: u32,
+    pub requests: u32,
+    pub front_ms: u64,
+    pub back_ms: u64,
+    pub pp: bool,
+    pub pp_every: bool,
+}
+
+#[derive(Clone, Debug, Serialize, Deserialize, PartialEq)]
+#[serde(tag = "op")]
+pub enum Op {
+    /// client datagram from source (ip,port); `resolve`: answer the SelectBackend (if one is emitted)
+    /// at once with this backend, as the shell does; `None` leaves the flow awaiting.
+    Client { ip: u8, port: u16, len: usize, resolve: Option<u8> },
+    /// backend datagram tagged with a flow id (live, awaiting, closed or never used)
+    Backend { flow: usize, len: usize },
+    /// (possibly stale / duplicate) backend resolution for a flow id
+    Resolve { flow: usize, backend: u8 },
+    /// advance the clock; the shell's timer fires `handle_timeout` at each armed deadline on the way;
+    /// `fire` adds a spurious `handle_timeout` at the target time
+    Advance { ms: u64, fire: bool },
+    SetCluster { cfg: Cl },
+    SetMaxFlows { n: usize },
+    SetMaxRx { n: usize },
+    Drain,
+    Abort { flow: usize },
+    CloseAll,
+    /// listener rebuild after a drain episode: close_all, manager must be empty, fresh manager
+    Rebuild { cfg: Cl, cap: usize },
+}
+
+#[derive(Clone, Debug, Serialize, Deserialize, PartialEq)]
+pub struct Plan {
+    pub seed: u64,
+    pub family: String,
+    pub v6: bool,
+    pub cap: usize,
+    pub max_rx: usize,
+    pub hash_seed: u64,
+    pub cluster: Cl,
+    pub ops: Vec<Op>,
+}
+
+fn client_addr(v6: bool, ip: u8, port: u16) -> SocketAddr {
+    let p = 9000 + port;
+    if v6 { SocketAddr::new(IpAddr::V6(Ipv6Addr::new(0xfd00, 0, 0, 0, 0, 0, 0, 1 + ip as u16)), p) } else { SocketAddr::new(IpAddr::V4(Ipv4Addr::new(10, 0, 0, 1 + ip)), p) }
+}
+fn backend_addr(v6: bool, b: u8) -> SocketAddr {
+    let p = 5300 + b as u16;
+    if v6 { SocketAddr::new(IpAddr::V6(Ipv6Addr::new(0xfd01, 0, 0, 0, 0, 0, 0, 1 + b as u16)), p) } else { SocketAddr::new(IpAddr::V4(Ipv4Addr::new(10, 1, 0, 1 + b)), p) }
+}
+fn cluster_name(n: u8) -> String { if n == 0 { String::new() } else { format!("cluster-{n}") } }
+fn to_cc(c: &Cl) -> ClusterConfig {
+    ClusterConfig {
+        cluster: cluster_name(c.name),
+        affinity_with_port: c.with_port,
+        responses: c.responses,
+        requests: c.requests,
+        front_timeout: Duration::from_millis(c.front_ms),
+        back_timeout: Duration::from_millis(c.back_ms),
+        send_proxy_protocol: c.pp,
+        proxy_protocol_every_datagram: c.pp_every,
+    }
+}
+/// unique payload: tag, 3 seed bytes, 64-bit datagram id, id-dependent filler
+fn make_payload(tag: u8, seed: u64, id: u64, len: usize) -> Vec<u8> {
+    let mut v = Vec::with_capacity(len);
+    if len == 0 { return v; }
+    v.push(tag);
+    v.extend_from_slice(&seed.to_le_bytes()[..3]);
+    v.extend_from_slice(&id.to_le_bytes());
+    for i in HDR..len { v.push((id.wrapping_mul(131).wrapping_add(i as u64 * 7) as u8) ^ 0x5a); }
+    v.truncate(len);
+    v
+}
+fn decode_id(body: &[u8], tag: u8, seed: u64) -> Option<u64> {
+    if body.len() < HDR || body[0] != tag || body[1..4] != seed.to_le_bytes()[..3] { return None; }
+    Some(u64::from_le_bytes(body[4..12].try_into().unwrap()))
+}
+/// PROXY protocol v2 DGRAM header, written from the v2 spec / LIFECYCLE.md §8 (independent encoder)
+fn pp2_header(client: SocketAddr, backend: SocketAddr) -> Vec<u8> {
+    let mut h = PP_SIG.to_vec();
+    h.push(0x21);
+    match (client, backend) {
+        (SocketAddr::V4(s), SocketAddr::V4(d)) => {
+            h.push(0x12);
+            h.extend_from_slice(&12u16.to_be_bytes());
+            h.extend_from_slice(&s.ip().octets());
+            h.extend_from_slice(&d.ip().octets());
+            h.extend_from_slice(&s.port().to_be_bytes());
+            h.extend_from_slice(&d.port().to_be_bytes());
+        }
+        (SocketAddr::V6(s), SocketAddr::V6(d)) => {
+            h.push(0x22);
+            h.extend_from_slice(&36u16.to_be_bytes());
+            h.extend_from_slice(&s.ip().octets());
+            h.extend_from_slice(&d.ip().octets());
+            h.extend_from_slice(&s.port().to_be_bytes());
+            h.extend_from_slice(&d.port().to_be_bytes());
+        }
+        _ => {
+            h.push(0x00);
+            h.extend_from_slice(&0u16.to_be_bytes());
+        }
+    }
+    h
+}
+/// the documented affinity key: source IP + port, or source IP with the port normalised to 0
+fn key_of(src: SocketAddr, with_port: bool) -> SocketAddr {
+    if with_port { src } else { let mut k = src; k.set_port(0); k }
+}
+fn mode_name(with_port: bool) -> &'static str { if with_port { "ip_port" } else { "ip" } }
+
+// ------------------------------------------------------------------------------------ generation
+
+fn rand_cl(r: &mut Prng, base_mode: bool, flip: bool, empty: bool, pp: bool, caps: bool, touts: &[u64]) -> Cl {
+    Cl {
+        name: if empty && r.chance(1, 4) { 0 } else { 1 + r.below(2) as u8 },
+        with_port: if flip && r.chance(1, 2) { !base_mode } else { base_mode },
+        responses: if caps && r.chance(2, 5) { 1 + r.below(3) as u32 } else { 0 },
+        requests: if caps && r.chance(2, 5) { 1 + r.below(4) as u32 } else { 0 },
+        front_ms: *r.pick(touts),
+        back_ms: *r.pick(touts),
+        pp: pp && r.chance(1, 2),
+        pp_every: r.chance(1, 2),
+    }
+}
+
+pub fn generate(seed: u64, tier: Tier) -> Plan {
+    let mut r = Prng::derive(seed, "c19/plan");
+    let v6 = r.chance(1, 4);
+    let nips = 1 + r.below(3) as u8;
+    let nports = 1 + r.below(3) as u16;
+    let nback = 1 + r.below(3) as u8;
+    let mut cap = *r.pick(&[1usize, 1, 2, 2, 3, 4, 6, 8]);
+    let mut max_rx = *r.pick(&[12usize, 64, 512, 1500, 1500, 1500]);
+    let base_mode = r.chance(1, 2);
+    let flip = r.chance(1, 3);
+    let empty = r.chance(1, 5);
+    let pp = r.chance(2, 5);
+    let caps = r.chance(1, 2);
+    let touts: Vec<u64> = match r.below(3) { 0 => vec![1000], 1 => vec![500, 2000], _ => vec![500, 1000, 2000, 5000] };
+    let resolve_pm = *r.pick(&[0u64, 500, 800, 1000, 1000]);
+    let cluster = { let mut c = rand_cl(&mut r, base_mode, false, false, pp, caps, &touts); c.with_port = base_mode; c };
+    let nops = match tier { Tier::Quick => 3 + r.below(40), Tier::Thorough => 3 + r.below(90) } as usize;
+    // swarm: per-plan operation weights
+    let w = |r: &mut Prng, hi: &[u64]| *r.pick(hi);
+    let weights: [u64; 11] = [
+        8 + w(&mut r, &[0, 8, 16]),       // Client
+        w(&mut r, &[0, 2, 6, 10]),        // Backend
+        w(&mut r, &[0, 1, 4, 8]),         // Resolve
+        w(&mut r, &[1, 4, 8]),            // Advance
+        w(&mut r, &[0, 0, 2, 5]),         // SetCluster
+        w(&mut r, &[0, 0, 2, 4]),         // SetMaxFlows
+        w(&mut r, &[0, 0, 0, 2]),         // SetMaxRx
+        w(&mut r, &[0, 0, 0, 1]),         // Drain
+        w(&mut r, &[0, 0, 1, 3]),         // Abort
+        w(&mut r, &[0, 0, 0, 1, 2]),      // CloseAll
+        0,                                // Rebuild (enabled after a Drain)
+    ];
+    let total: u64 = weights.iter().sum();
+    let mut ops = Vec::with_capacity(nops);
+    let mut drained = false;
+    let idspace = |cap: usize, r: &mut Prng| { let n = (cap.min(6) + 2) as u64; r.below(n).min(r.below(n)).min(r.below(n + 1)) as usize };
+    let pick_len = |r: &mut Prng, max_rx: usize| -> usize {
+        match r.below(16) {
+            0 => 0,
+            1..=3 => HDR,
+            4..=6 => HDR + r.below(52) as usize,
+            7 => max_rx.max(HDR),
+            8 => (max_rx + 1).max(HDR),
+            9 => if r.chance(1, 2) { (max_rx + 1 + r.below(300) as usize).max(HDR) } else { HDR + 1 },
+            _ => (HDR + r.below(max_rx.min(600) as u64 + 1) as usize).min(max_rx.max(HDR)),
+        }
+    };
+    while ops.len() < nops {
+        if drained && r.chance(1, 4) {
+            let c = { let mut c = rand_cl(&mut r, base_mode, flip, false, pp, caps, &touts); if c.name == 0 { c.name = 1; } c };
+            cap = *r.pick(&[1usize, 2, 3, 4, 6]);
+            max_rx = 1500.min(max_rx.max(64));
+            ops.push(Op::Rebuild { cfg: c, cap });
+            drained = false;
+            continue;
+        }
+        let mut x = r.below(total);
+        let mut k = 0;
+        while x >= weights[k] { x -= weights[k]; k += 1; }
+        let op = match k {
+            0 => Op::Client { ip: r.below(nips as u64) as u8, port: r.below(nports as u64) as u16, len: pick_len(&mut r, max_rx), resolve: if r.below(1000) < resolve_pm { Some(r.below(nback as u64) as u8) } else { None } },
+            1 => Op::Backend { flow: idspace(cap, &mut r), len: { let l = pick_len(&mut r, max_rx); if l == 0 { HDR } else { l } } },
+            2 => Op::Resolve { flow: idspace(cap, &mut r), backend: r.below(nback as u64) as u8 },
+            3 => {
+                let t = *r.pick(&touts);
+                let ms = match r.below(10) { 0 => 0, 1..=4 => 1 + r.below(300), 5 => t, 6 => t - 1, 7 => t + 1, 8 => t / 2, _ => 5000 + r.below(10000) };
+                Op::Advance { ms, fire: r.chance(1, 3) }
+            }
+            4 => Op::SetCluster { cfg: rand_cl(&mut r, base_mode, flip, empty, pp, caps, &touts) },
+            5 => { let n = if r.chance(1, 2) { r.below(cap as u64 + 1) as usize } else { 1 + r.below(8) as usize }; cap = cap.max(n); Op::SetMaxFlows { n } }
+            6 => { max_rx = *r.pick(&[12usize, 40, 64, 512, 1500, 4096]); Op::SetMaxRx { n: max_rx } }
+            7 => { drained = true; Op::Drain }
+            8 => Op::Abort { flow: idspace(cap, &mut r) },
+            _ => Op::CloseAll,
+        };
+        ops.push(op);
+    }
+    let family = format!("{}/{}{}{}{}", if v6 { "v6" } else { "v4" }, mode_name(base_mode), if flip { "+flip" } else { "" }, if empty { "+nocluster" } else { "" }, if pp { "+ppv2" } else { "" });
+    Plan { seed, family, v6, cap, max_rx, hash_seed: r.next_u64(), cluster, ops }
+}
+
+fn cl_short(c: &Cl) -> String {
+    format!("{{c{} {} rsp{} req{} f{} b{}{}}}", c.name, mode_name(c.with_port), c.responses, c.requests, c.front_ms, c.back_ms, if c.pp { if c.pp_every { " pp*" } else { " pp1" } } else { "" })
+}
+fn op_short(o: &Op) -> String {
+    match o {
+        Op::Client { ip, port, len, resolve } => format!("C{ip}.{port}/{len}{}", resolve.map(|b| format!(">b{b}")).unwrap_or_default()),
+        Op::Backend { flow, len } => format!("B#{flow}/{len}"),
+        Op::Resolve { flow, backend } => format!("R#{flow}>b{backend}"),
+        Op::Advance { ms, fire } => format!("T+{ms}{}", if *fire { "!" } else { "" }),
+        Op::SetCluster { cfg } => format!("cfg{}", cl_short(cfg)),
+        Op::SetMaxFlows { n } => format!("cap={n}"),
+        Op::SetMaxRx { n } => format!("rx={n}"),
+        Op::Drain => "drain".into(),
+        Op::Abort { flow } => format!("abort#{flow}"),
+        Op::CloseAll => "closeall".into(),
+        Op::Rebuild { cfg, cap } => format!("rebuild{} cap={cap}", cl_short(cfg)),
+    }
+}
+pub fn summarize(p: &Plan) -> String {
+    let mut s = format!("{} cap={} rx={} {} :", p.family, p.cap, p.max_rx, cl_short(&p.cluster));
+    for o in &p.ops { s.push(' '); s += &op_short(o); }
+    s
+}
+
+// --------------------------------------------------------------------------------- reference model
+
+#[derive(Clone, Copy, Debug, PartialEq)]
+enum DgState { Dropped, Pending, Overwritten, Forwarded, Unsent }
+
+struct Dg { bytes: Vec<u8>, src: Option<SocketAddr>, state: DgState }
+
+#[derive(Clone, Debug)]
+struct MFlow {
+    id: FlowId,
+    with_port: bool,
+    key: SocketAddr,
+    owner: SocketAddr,
+    cfg: Cl,
+    backend: Option<SocketAddr>,
+    pending: Option<u64>,
+    fwd: u32,
+    replies: u32,
+    deadline: u64,
+    pp_first: bool,
+    last_sender: SocketAddr,
+}
+
+struct ExpFwd { dg: u64, dst: SocketAddr, pp: Option<Vec<SocketAddr>>, flow: FlowId, src: SocketAddr, with_port: bool }
+struct ExpRet { dg: u64, dst: SocketAddr, flow: FlowId }
+#[derive(Default)]
+struct Exp {
+    ctx: String,
+    admit: bool,
+    fwd: Option<ExpFwd>,
+    ret: Option<ExpRet>,
+    close: BTreeMap<FlowId, &'static str>,
+    open: Option<(FlowId, SocketAddr)>,
+    drop: Option<DropReason>,
+}
+
+#[derive(Default)]
+struct Obs {
+    n: usize,
+    selects: Vec<(FlowId, String, u64)>,
+    opens: Vec<(FlowId, SocketAddr)>,
+    fwd: Vec<(usize, SocketAddr, Vec<u8>)>,
+    ret: Vec<(usize, SocketAddr, Vec<u8>)>,
+    closes: Vec<(usize, FlowId)>,
+    drops: Vec<DropReason>,
+    created: u64,
+    evicted: u64,
+    shed: u64,
+    din: Vec<usize>,
+    dout: Vec<usize>,
+}
+
+struct Model {
+    seed: u64,
+    cur: Cl,
+    cap: usize,
+    cap_high: usize,
+    max_rx: usize,
+    draining: bool,
+    flows: BTreeMap<FlowId, MFlow>,
+    dgrams: BTreeMap<u64, Dg>,
+    /// (with_port, key) -> SelectBackend affinity hash seen (must be a function of the key)
+    hashes: BTreeMap<(bool, SocketAddr), u64>,
+    viol: Vec<Violation>,
+    probes: BTreeMap<String, u64>,
+    /// set when model and manager diverged in a way that makes later comparisons meaningless
+    stop: bool,
+    opened: u64,
+    closed: u64,
+}
+
+impl Model {
+    fn probe(&mut self, k: &str) { *self.probes.entry(k.to_string()).or_insert(0) += 1; }
+    fn v(&mut self, class: &str, key: impl Into<String>, detail: impl Into<String>, fatal: bool) {
+        let key = key.into();
+        if !self.viol.iter().any(|x| x.class == class && x.key == key) { self.viol.push(Violation::new(class, key, detail)); }
+        if fatal { self.stop = true; }
+    }
+    fn matched(&self, src: SocketAddr) -> Vec<FlowId> {
+        // flows this source belongs to, each judged under the affinity mode captured at its admission
+        // ("existing flows keep their captured config (stable affinity)"); current-mode match first
+        let mut v: Vec<FlowId> = self.flows.values().filter(|f| key_of(src, f.with_port) == f.key).map(|f| f.id).collect();
+        v.sort_by_key(|id| (self.flows[id].with_port != self.cur.with_port, *id));
+        v
+    }
+    fn pp_for(f: &mut MFlow, sender: SocketAddr) -> Option<Vec<SocketAddr>> {
+        if !f.cfg.pp { return None; }
+        if f.cfg.pp_every || f.pp_first { f.pp_first = false; Some(vec![f.owner, sender]) } else { None }
+    }
+    fn flow_phase(&self, id: FlowId) -> &'static str {
+        match self.flows.get(&id) { None => "dead", Some(f) if f.backend.is_none() => "awaiting", Some(_) => "established" }
+    }
+
+    fn admit(&mut self, id: FlowId, src: SocketAddr, dg: u64, now: u64) {
+        let f = MFlow { id, with_port: self.cur.with_port, key: key_of(src, self.cur.with_port), owner: src, cfg: self.cur.clone(), backend: None, pending: Some(dg), fwd: 0, replies: 0, deadline: now + self.cur.front_ms * MS, pp_first: true, last_sender: src };
+        self.dgrams.get_mut(&dg).unwrap().state = DgState::Pending;
+        self.flows.insert(id, f);
+        self.opened += 1;
+    }
+
+    /// forward `dg` from `sender` on established flow `id` at `now`; returns the expectation
+    fn forward(&mut self, id: FlowId, sender: SocketAddr, dg: u64, now: u64, exp: &mut Exp) {
+        let f = self.flows.get_mut(&id).unwrap();
+        let dst = f.backend.unwrap();
+        let pp = Model::pp_for(f, sender);
+        f.fwd += 1;
+        f.last_sender = sender;
+        f.deadline = now + f.cfg.front_ms * MS;
+        let exhausted = f.cfg.requests != 0 && f.fwd >= f.cfg.requests;
+        exp.fwd = Some(ExpFwd { dg, dst, pp, flow: id, src: sender, with_port: f.with_port });
+        self.dgrams.get_mut(&dg).unwrap().state = DgState::Forwarded;
+        if exhausted { exp.close.insert(id, "requests"); self.flows.remove(&id); self.closed += 1; self.probe("close_requests_reached"); }
+    }
+
+    fn on_client(&mut self, src: SocketAddr, dg: u64, len: usize, now: u64, obs: &Obs) -> Exp {
+        let mut exp = Exp::default();
+        let matched = self.matched(src);
+        let cur_key = key_of(src, self.cur.with_port);
+        let cur_match = matched.iter().copied().find(|id| { let f = &self.flows[id]; f.with_port == self.cur.with_port && f.key == cur_key });
+        let situation = if matched.is_empty() { "new_key".to_string() } else {
+            let id = cur_match.unwrap_or(matched[0]);
+            format!("{}{}", self.flow_phase(id), if cur_match.is_none() { "|keyed_under_other_mode" } else { "" })
+        };
+        exp.ctx = format!("client|{situation}|{}{}{}", mode_name(self.cur.with_port), if self.draining { "|draining" } else { "" }, if self.flows.len() >= self.cap { "|at_cap" } else { "" });
+        if len > self.max_rx { self.probe("client_oversize"); exp.drop = Some(DropReason::Truncated); exp.ctx = "client|oversize".into(); return exp; }
+        if self.cur.name == 0 {
+            // LIFECYCLE §3 lists "no cluster configured -> Drop(NoBackend)" before the table lookup, while
+            // ConfigEvent::SetCluster says existing flows keep their captured config: both are accepted
+            // for a source that owns a live flow.
+            if !matched.is_empty() && obs.drops.is_empty() {
+                self.probe("nocluster_existing_flow_forwarded");
+            } else {
+                if !matched.is_empty() { self.probe("nocluster_existing_flow_dropped"); }
+                self.probe("client_nocluster");
+                exp.drop = Some(DropReason::NoBackend);
+                exp.ctx = "client|no_cluster".into();
+                return exp;
+            }
+        }
+        if len == 0 { self.probe("client_empty"); exp.drop = Some(DropReason::Invalid); exp.ctx = "client|empty".into(); return exp; }
+        if matched.is_empty() {
+            if self.draining { self.probe("shed_draining"); exp.drop = Some(DropReason::Shed); return exp; }
+            if self.flows.len() >= self.cap { self.probe("shed_at_cap"); exp.drop = Some(DropReason::Shed); return exp; }
+            exp.admit = true;
+            return exp;
+        }
+        let target = match cur_match {
+            Some(id) => id,
+            None => {
+                // The source owns live flow(s) admitted under the other affinity mode. Documentation:
+                // a mid-flow reconfig applies to new flows only, "a live flow's teardown contract and
+                // affinity are stable". The datagram must ride one of those flows.
+                let old = &self.flows[&matched[0]];
+                let key = format!("{}->{}", mode_name(old.with_port), mode_name(self.cur.with_port));
+                let rides_old = obs.selects.is_empty() && !obs.drops.contains(&DropReason::Shed);
+                if !rides_old {
+                    let what = if !obs.selects.is_empty() { "a second flow was admitted" } else { "the datagram was shed as a new flow" };
+                    self.v("affinity_split", key, format!("datagram #{dg} from {src}: the source owns live flow #{} (client {}, keyed {} under affinity {}, backend {:?}) but after the affinity key was reconfigured to {} {what} for it", old.id, old.owner, old.key, mode_name(old.with_port), old.backend, mode_name(self.cur.with_port)), false);
+                    self.probe("affinity_split");
+                    // resynchronise on what the manager did
+                    if !obs.selects.is_empty() { exp.admit = true; } else { exp.drop = Some(DropReason::Shed); }
+                    return exp;
+                }
+                matched[0]
+            }
+        };
+        if matched.len() > 1 { self.probe("source_matches_several_flows"); }
+        let f = self.flows.get_mut(&target).unwrap();
+        if f.backend.is_none() {
+            // documented one-slot newest-wins buffer; idle refresh only
+            if let Some(old) = f.pending.replace(dg) { self.dgrams.get_mut(&old).unwrap().state = DgState::Overwritten; }
+            f.deadline = now + f.cfg.front_ms * MS;
+            self.dgrams.get_mut(&dg).unwrap().state = DgState::Pending;
+            self.probe("buffered_while_awaiting");
+        } else {
+            if self.flows.len() > self.cap { self.probe("forward_on_existing_flow_over_cap"); }
+            if self.draining { self.probe("forward_on_existing_flow_while_draining"); }
+            self.forward(target, src, dg, now, &mut exp);
+        }
+        exp
+    }
+
+    fn on_resolve(&mut self, id: FlowId, addr: SocketAddr, now: u64) -> Exp {
+        let mut exp = Exp::default();
+        exp.ctx = format!("resolve|{}", self.flow_phase(id));
+        match self.flows.get_mut(&id) {
+            None => { self.probe("resolve_unknown_flow"); exp.drop = Some(DropReason::UnknownFlow); }
+            Some(f) if f.backend.is_some() => { self.probe("resolve_duplicate"); }
+            Some(f) => {
+                f.backend = Some(addr);
+                exp.open = Some((id, addr));
+                let owner = f.owner;
+                if let Some(dg) = f.pending.take() {
+                    // the buffered datagram's sender: recorded in the registry
+                    let sender = self.dgrams[&dg].src.unwrap_or(owner);
+                    self.forward(id, sender, dg, now, &mut exp);
+                }
+                self.probe("resolve_establishes");
+            }
+        }
+        exp
+    }
+
+    fn on_backend(&mut self, id: FlowId, dg: u64, len: usize, now: u64) -> Exp {
+        let mut exp = Exp::default();
+        exp.ctx = format!("backend|{}", self.flow_phase(id));
+        if len > self.max_rx { self.probe("backend_oversize"); exp.drop = Some(DropReason::Truncated); exp.ctx = "backend|oversize".into(); return exp; }
+        match self.flows.get_mut(&id) {
+            None => { self.probe("backend_unknown_flow"); exp.drop = Some(DropReason::UnknownFlow); }
+            Some(f) if f.backend.is_none() => { self.probe("backend_awaiting_flow"); exp.drop = Some(DropReason::UnknownFlow); }
+            Some(f) => {
+                f.replies += 1;
+                let other_port = f.last_sender != f.owner;
+                f.deadline = now + f.cfg.back_ms * MS;
+                exp.ret = Some(ExpRet { dg, dst: f.owner, flow: id });
+                let done = f.cfg.responses != 0 && f.replies >= f.cfg.responses;
+                self.dgrams.get_mut(&dg).unwrap().state = DgState::Forwarded;
+                if other_port { self.probe("reply_to_flow_owner_while_last_sender_was_another_port"); }
+                if done { exp.close.insert(id, "responses"); self.flows.remove(&id); self.closed += 1; self.probe("close_responses_reached"); }
+            }
+        }
+        exp
+    }
+
+    fn on_timeout(&mut self, now: u64) -> Exp {
+        let mut exp = Exp::default();
+        exp.ctx = "timeout".into();
+        let due: Vec<FlowId> = self.flows.values().filter(|f| f.deadline <= now).map(|f| f.id).collect();
+        for id in due {
+            let f = self.flows.remove(&id).unwrap();
+            if let Some(dg) = f.pending { self.dgrams.get_mut(&dg).unwrap().state = DgState::Dropped; }
+            exp.close.insert(id, if f.backend.is_some() { "idle" } else { "idle_awaiting" });
+            self.closed += 1;
+        }
+        exp
+    }
+
+    fn on_abort(&mut self, id: FlowId) -> Exp {
+        let mut exp = Exp::default();
+        exp.ctx = format!("abort|{}", self.flow_phase(id));
+        if let Some(f) = self.flows.remove(&id) {
+            if let Some(dg) = f.pending { self.dgrams.get_mut(&dg).unwrap().state = DgState::Dropped; }
+            exp.close.insert(id, "abort");
+            self.closed += 1;
+        }
+        exp
+    }
+
+    fn on_close_all(&mut self) -> Exp {
+        let mut exp = Exp::default();
+        exp.ctx = "close_all".into();
+        let ids: Vec<FlowId> = self.flows.keys().copied().collect();
+        for id in ids {
+            let f = self.flows.remove(&id).unwrap();
+            if let Some(dg) = f.pending { self.dgrams.get_mut(&dg).unwrap().state = DgState::Dropped; }
+            exp.close.insert(id, "close_all");
+            self.closed += 1;
+        }
+        exp
+    }
+
+    /// split an upstream payload into (ppv2 header, body)
+    fn split_pp(p: &[u8]) -> (Option<&[u8]>, &[u8]) {
+        if p.len() >= 16 && p[..12] == PP_SIG {
+            let n = 16 + u16::from_be_bytes([p[14], p[15]]) as usize;
+            if p.len() >= n { return (Some(&p[..n]), &p[n..]); }
+        }
+        (None, p)
+    }
+
+    fn payload_diff(want: &[u8], got: &[u8]) -> &'static str {
+        if got.len() < want.len() && want[..got.len()] == *got { "truncated" } else if got.len() > want.len() && got[..want.len()] == *want { "extended" } else { "corrupted" }
+    }
+
+    /// Compare the outputs of one manager call with the expectation.
+    fn check(&mut self, exp: &Exp, obs: &Obs, learn_admit: Option<(SocketAddr, u64, u64)>) -> Option<FlowId> {
+        let ctx = exp.ctx.clone();
+        let mut admitted = None;
+        // ---- admission
+        if exp.admit {
+            let (src, dg, now) = learn_admit.expect("admit needs source");
+            if obs.selects.len() != 1 {
+                self.v("admission", format!("missing|{ctx}"), format!("datagram #{dg} from {src} must open a new flow (live {} < cap {}, not draining) but {} SelectBackend were emitted, drops {:?}", self.flows.len(), self.cap, obs.selects.len(), obs.drops), true);
+            } else {
+                let (id, cluster, hash) = obs.selects[0].clone();
+                if self.flows.contains_key(&id) {
+                    self.v("flow_id_collision", ctx.clone(), format!("new flow for {src} got id {id} which names a live flow (client {})", self.flows[&id].owner), true);
+                } else {
+                    if cluster != cluster_name(self.cur.name) { self.v("select_cluster", ctx.clone(), format!("SelectBackend names cluster {cluster:?}, active cluster is {:?}", cluster_name(self.cur.name)), false); }
+                    let k = (self.cur.with_port, key_of(src, self.cur.with_port));
+                    if let Some(prev) = self.hashes.get(&k) {
+                        if *prev != hash { self.v("affinity_hash_unstable", mode_name(self.cur.with_port), format!("affinity hash for key {:?} changed from {prev:#x} to {hash:#x}", k.1), false); }
+                        self.probe("flow_recreated_same_key");
+                    }
+                    self.hashes.insert(k, hash);
+                    self.admit(id, src, dg, now);
+                    admitted = Some(id);
+                    if obs.created != 1 { self.v("gauge", "flow_created_metric", format!("{} FlowCreated metrics for one admission", obs.created), false); }
+                }
+            }
+        } else {
+            if !obs.selects.is_empty() {
+                let why = if exp.drop == Some(DropReason::Shed) { if self.draining { "draining" } else { "at_cap" } } else { "not_a_new_flow" };
+                self.v("admission", format!("unexpected|{why}|{ctx}"), format!("SelectBackend {:?} emitted although no flow may be admitted here (live {}, cap {}, draining {})", obs.selects, self.flows.len(), self.cap, self.draining), true);
+            }
+            if obs.created != 0 { self.v("gauge", "flow_created_metric", format!("{} FlowCreated metrics without admission", obs.created), false); }
+        }
+        // ---- upstream open
+        match (&exp.open, obs.opens.as_slice()) {
+            (None, []) => {}
+            (Some((id, addr)), [(oid, oaddr)]) if id == oid && addr == oaddr => {}
+            (e, o) => self.v("open_upstream", ctx.clone(), format!("expected OpenUpstream {e:?}, got {o:?}"), true),
+        }
+        // ---- client -> backend
+        let mut fwd_pos = None;
+        for (i, (pos, dst, payload)) in obs.fwd.iter().enumerate() {
+            let (hdr, body) = Model::split_pp(payload);
+            let Some(id) = decode_id(body, b'C', self.seed).filter(|id| self.dgrams.contains_key(id)) else {
+                self.v("forward_unattributable", ctx.clone(), format!("SendToBackend to {dst} carries {} bytes that are no client datagram of this run: {:02x?}", payload.len(), &payload[..payload.len().min(32)]), true);
+                continue;
+            };
+            let state = self.dgrams[&id].state;
+            match exp.fwd.as_ref().filter(|_| i == 0) {
+                Some(e) if e.dg == id => {
+                    fwd_pos = Some(*pos);
+                    let want = &self.dgrams[&id].bytes;
+                    if body != &want[..] {
+                        let kind = Model::payload_diff(want, body);
+                        self.v("payload_altered", format!("to_backend|{kind}"), format!("datagram #{id} ({} bytes) reached the backend as {} bytes ({kind})", want.len(), body.len()), false);
+                    }
+                    if *dst != e.dst {
+                        self.v("wrong_backend", ctx.clone(), format!("datagram #{id} of flow #{} sent to {dst}, the flow is pinned to {}", e.flow, e.dst), false);
+                    }
+                    match (&e.pp, hdr) {
+                        (None, None) => {}
+                        (None, Some(_)) => self.v("ppv2", "unexpected_header", format!("datagram #{id} of flow #{} carries a PROXY v2 header that the flow's policy does not ask for", e.flow), false),
+                        (Some(_), None) => self.v("ppv2", "missing_header", format!("datagram #{id} of flow #{} lacks the PROXY v2 header", e.flow), false),
+                        (Some(ok), Some(h)) => {
+                            if !ok.iter().any(|c| pp2_header(*c, e.dst) == h) { self.v("ppv2", "wrong_header", format!("datagram #{id}: PROXY v2 header {h:02x?} does not describe client {:?} -> backend {}", ok, e.dst), false); }
+                            self.probe("ppv2_header_checked");
+                        }
+                    }
+                    // stickiness across flows: no other live flow this source belongs to may be pinned elsewhere
+                    let other: Vec<(FlowId, bool, SocketAddr)> = self.flows.values().filter(|g| g.id != e.flow && key_of(e.src, g.with_port) == g.key).filter_map(|g| g.backend.filter(|b| *b != e.dst).map(|b| (g.id, g.with_port, b))).collect();
+                    if let Some((gid, gmode, gb)) = other.first() {
+                        self.v("backend_switch", format!("{}->{}", mode_name(*gmode), mode_name(e.with_port)), format!("datagram #{id} from {} was forwarded to backend {} on flow #{} while the source's live flow #{gid} is pinned to backend {gb}", e.src, e.dst, e.flow), false);
+                        self.probe("backend_switch");
+                    }
+                    self.probe("forward_checked");
+                }
+                Some(e) => {
+                    let key = match state { DgState::Overwritten => "overwritten_buffered_datagram", DgState::Forwarded => "already_forwarded_datagram", DgState::Dropped => "dropped_datagram", _ => "other_datagram" };
+                    self.v("wrong_datagram_forwarded", format!("{key}|{ctx}"), format!("expected datagram #{} to go to {}, but datagram #{id} (model state {state:?}) was sent to {dst}", e.dg, e.dst), true);
+                }
+                None => {
+                    let class = match state { DgState::Forwarded => "duplicate_forward", DgState::Overwritten | DgState::Dropped => "discarded_datagram_forwarded", _ => "unexpected_forward" };
+                    self.v(class, ctx.clone(), format!("datagram #{id} (model state {state:?}, source {:?}) was sent to backend {dst} although nothing may be forwarded here", self.dgrams[&id].src), true);
+                }
+            }
+        }
+        if let Some(e) = &exp.fwd {
+            if fwd_pos.is_none() && !self.stop {
+                self.v("missing_forward", ctx.clone(), format!("datagram #{} from {} on flow #{} must be forwarded to {} but no SendToBackend was emitted (drops {:?})", e.dg, e.src, e.flow, e.dst, obs.drops), true);
+            }
+            if obs.din.as_slice() != [self.dgrams[&e.dg].bytes.len()] && fwd_pos.is_some() { self.v("gauge", "datagram_in_bytes", format!("DatagramIn metrics {:?} for a {}-byte datagram", obs.din, self.dgrams[&e.dg].bytes.len()), false); }
+        }
+        // ---- backend -> client
+        let mut ret_pos = None;
+        for (i, (pos, dst, payload)) in obs.ret.iter().enumerate() {
+            let Some(id) = decode_id(payload, b'B', self.seed).filter(|id| self.dgrams.contains_key(id)) else {
+                self.v("reply_unattributable", ctx.clone(), format!("SendToClient to {dst} carries {} bytes that are no backend datagram of this run", payload.len()), true);
+                continue;
+            };
+            match exp.ret.as_ref().filter(|e| i == 0 && e.dg == id) {
+                Some(e) => {
+                    ret_pos = Some(*pos);
+                    let want = &self.dgrams[&id].bytes;
+                    if payload != want { let kind = Model::payload_diff(want, payload); self.v("payload_altered", format!("to_client|{kind}"), format!("backend datagram #{id} ({} bytes) reached the client as {} bytes ({kind})", want.len(), payload.len()), false); }
+                    if *dst != e.dst {
+                        let kind = if dst.ip() == e.dst.ip() { "other_port_same_ip" } else { "other_client" };
+                        self.v("reply_misrouted", kind, format!("backend datagram #{id} on flow #{} belongs to client {} but was sent to {dst}", e.flow, e.dst), false);
+                    }
+                    self.probe("reply_checked");
+                }
+                None => self.v("unexpected_reply", ctx.clone(), format!("backend datagram #{id} was sent to client {dst} although the flow it names may not deliver it (expected {:?})", exp.ret.as_ref().map(|e| e.dg)), true),
+            }
+        }
+        if let Some(e) = &exp.ret {
+            if ret_pos.is_none() && !self.stop { self.v("missing_reply", ctx.clone(), format!("backend datagram #{} on established flow #{} must be returned to {} but no SendToClient was emitted (drops {:?})", e.dg, e.flow, e.dst, obs.drops), true); }
+        }
+        // ---- teardown
+        let mut seen = BTreeSet::new();
+        for (pos, id) in &obs.closes {
+            if !seen.insert(*id) { self.v("double_close", ctx.clone(), format!("CloseFlow({id}) emitted twice by one call"), true); continue; }
+            match exp.close.get(id) {
+                Some(_) => {
+                    let after = fwd_pos.into_iter().chain(ret_pos).any(|p| p > *pos) && (exp.fwd.as_ref().map(|e| e.flow) == Some(*id) || exp.ret.as_ref().map(|e| e.flow) == Some(*id));
+                    if after { self.v("emit_after_close", ctx.clone(), format!("flow #{id}: a datagram was emitted after its CloseFlow"), false); }
+                }
+                None => {
+                    if self.flows.contains_key(id) { self.v("premature_close", ctx.clone(), format!("CloseFlow({id}) for a flow that must stay alive (client {}, idle deadline at {} ms, {} forwards / {} replies, caps req{} rsp{})", self.flows[id].owner, self.flows[id].deadline / MS, self.flows[id].fwd, self.flows[id].replies, self.flows[id].cfg.requests, self.flows[id].cfg.responses), true); }
+                    else { self.v("close_of_dead_flow", ctx.clone(), format!("CloseFlow({id}) for an id that names no live flow (second teardown of an incarnation)"), true); }
+                }
+            }
+        }
+        for (id, why) in &exp.close {
+            if !seen.contains(id) && !self.stop { self.v("missing_close", format!("{why}|{ctx}"), format!("flow #{id} must be torn down here ({why}) but no CloseFlow was emitted"), true); }
+        }
+        if obs.evicted != obs.closes.len() as u64 { self.v("gauge", "flow_evicted_metric", format!("{} FlowEvicted metrics for {} CloseFlow", obs.evicted, obs.closes.len()), false); }
+        // ---- drops
+        if !self.stop {
+            let want: Vec<DropReason> = exp.drop.into_iter().collect();
+            if obs.drops != want { self.v("drop_accounting", ctx.clone(), format!("expected Drop {want:?}, got {:?}", obs.drops), false); }
+        }
+        admitted
+    }
+}
+
+// ------------------------------------------------------------------------------------------ runner
+
+struct Runner<'a> {
+    plan: &'a Plan,
+    mgr: UdpManager,
+    base: Instant,
+    now: u64,
+    /// the shell's one-shot timer, as armed by the last ArmTimer
+    armed: Option<u64>,
+    m: Model,
+    th: TraceHash,
+    log: Option<Vec<String>>,
+    created: u64,
+    evicted: u64,
+    next_dg: u64,
+    forwards: u64,
+    replies: u64,
+    closes: u64,
+}
+
+fn hash_addr(th: &mut TraceHash, a: &SocketAddr) {
+    match a.ip() { IpAddr::V4(i) => th.mix_bytes(&i.octets()), IpAddr::V6(i) => th.mix_bytes(&i.octets()) }
+    th.mix(a.port() as u64);
+}
+
+impl<'a> Runner<'a> {
+    fn inst(&self) -> Instant { self.base + Duration::from_nanos(self.now) }
+    fn ns_of(&self, i: Instant) -> u64 { i.saturating_duration_since(self.base).as_nanos() as u64 }
+    fn logf(&mut self, f: impl FnOnce() -> String) { if let Some(l) = self.log.as_mut() { let s = f(); l.push(s); } }
+
+    fn drain(&mut self) -> Obs {
+        let mut o = Obs::default();
+        while let Some(out) = self.mgr.poll_output() {
+            let pos = o.n;
+            o.n += 1;
+            if o.n > 100_000 { self.m.v("output_flood", "poll_output", "more than 100000 outputs from one call", true); break; }
+            self.logf(|| format!("      <- {out:?}"));
+            match out {
+                Output::SelectBackend { flow, cluster, key } => { self.th.mix(1); self.th.mix(flow as u64); self.th.mix(key); o.selects.push((flow, cluster, key)); }
+                Output::OpenUpstream { flow, backend } => { self.th.mix(2); self.th.mix(flow as u64); hash_addr(&mut self.th, &backend); o.opens.push((flow, backend)); }
+                Output::SendToBackend(t) => { self.th.mix(3); hash_addr(&mut self.th, &t.dst); self.th.mix_bytes(&t.payload); o.fwd.push((pos, t.dst, t.payload)); }
+                Output::SendToClient(t) => { self.th.mix(4); hash_addr(&mut self.th, &t.dst); self.th.mix_bytes(&t.payload); o.ret.push((pos, t.dst, t.payload)); }
+                Output::ArmTimer(d) => { let ns = self.ns_of(d); self.th.mix(5); self.th.mix(ns); self.armed = Some(ns); }
+                Output::Metric(MetricEvent::FlowCreated) => { self.th.mix(6); o.created += 1; self.created += 1; }
+                Output::Metric(MetricEvent::FlowEvicted) => { self.th.mix(7); o.evicted += 1; self.evicted += 1; }
+                Output::Metric(MetricEvent::FlowShed) => { self.th.mix(8); o.shed += 1; }
+                Output::Metric(MetricEvent::DatagramIn(n)) => { self.th.mix(9); self.th.mix(n as u64); o.din.push(n); }
+                Output::Metric(MetricEvent::DatagramOut(n)) => { self.th.mix(10); self.th.mix(n as u64); o.dout.push(n); }
+                Output::Metric(MetricEvent::DatagramDropped(_)) => { self.th.mix(11); }
+                Output::CloseFlow(f) => { self.th.mix(12); self.th.mix(f as u64); o.closes.push((pos, f)); }
+                Output::Drop(r) => { self.th.mix(13); self.th.mix(r as u64); o.drops.push(r); }
+            }
+        }
+        self.forwards += o.fwd.len() as u64;
+        self.replies += o.ret.len() as u64;
+        self.closes += o.closes.len() as u64;
+        o
+    }
+
+    /// invariants after every fully drained manager call
+    fn post(&mut self, what: &str) {
+        let live = self.m.flows.len();
+        let fc = self.mgr.flow_count();
+        if fc != live && !self.m.stop {
+            self.m.v("flow_count_mismatch", if fc > live { format!("leak|{what}") } else { format!("lost|{what}") }, format!("manager reports {fc} live flows, the reference model has {live}"), true);
+        }
+        if fc > self.m.cap_high { self.m.v("cap_exceeded", what.to_string(), format!("{fc} live flows exceed the largest cap ever configured ({})", self.m.cap_high), false); }
+        if self.created.wrapping_sub(self.evicted) != fc as u64 { self.m.v("gauge", "active_flows_balance", format!("FlowCreated {} - FlowEvicted {} != flow_count {fc}", self.created, self.evicted), false); }
+        if self.m.stop { return; }
+        let pt = self.mgr.poll_timeout().map(|i| self.ns_of(i));
+        if live > 0 {
+            let min = self.m.flows.values().map(|f| f.deadline).min().unwrap();
+            match self.armed {
+                None => self.m.v("timer_not_armed", what.to_string(), format!("{live} live flows (earliest idle deadline {} ms) but the shell's timer is not armed (last ArmTimer consumed)", min / MS), true),
+                Some(a) if a > min => self.m.v("timer_late", what.to_string(), format!("the shell's timer is armed at {} ms, the earliest idle deadline is {} ms", a / MS, min / MS), true),
+                _ => {}
+            }
+            if pt != Some(min) { self.m.v("timer_incoherent", what.to_string(), format!("poll_timeout() = {:?} ms, earliest idle deadline of a live flow is {} ms", pt.map(|x| x / MS), min / MS), false); }
+        } else if pt.is_some() {
+            self.m.v("timer_incoherent", format!("armed_without_flows|{what}"), format!("poll_timeout() = {pt:?} with no live flow"), false);
+        }
+    }
+
+    fn do_resolve(&mut self, flow: FlowId, b: u8) {
+        let addr = backend_addr(self.plan.v6, b);
+        self.th.mix(0x52); self.th.mix(flow as u64); self.th.mix(b as u64);
+        self.logf(|| format!("    BackendResolved flow={flow} backend=b{b} {addr}"));
+        let now = self.inst();
+        self.mgr.handle_input(ManagerInput::BackendResolved { flow, backend: format!("b{b}"), addr }, now);
+        let obs = self.drain();
+        let exp = self.m.on_resolve(flow, addr, self.now);
+        self.m.check(&exp, &obs, None);
+        self.post("resolve");
+    }
+
+    fn do_timeout(&mut self, what: &str) {
+        self.th.mix(0x54); self.th.mix(self.now);
+        let t = self.now;
+        self.logf(|| format!("    handle_timeout at {} ms ({what})", t / MS));
+        let now = self.inst();
+        self.mgr.handle_timeout(now);
+        let obs = self.drain();
+        let exp = self.m.on_timeout(self.now);
+        if !exp.close.is_empty() { self.m.probe("idle_close"); }
+        self.m.check(&exp, &obs, None);
+        self.post("timeout");
+    }
+
+    fn advance(&mut self, ms: u64, fire: bool) {
+        let target = self.now + ms * MS;
+        let mut guard = 0;
+        while let Some(d) = self.armed.filter(|d| *d <= target) {
+            if self.m.stop { return; }
+            guard += 1;
+            if guard > 1000 { self.m.v("timer_busy_loop", "advance", format!("the timer fired 1000 times without advancing past {} ms", target / MS), true); return; }
+            self.now = self.now.max(d);
+            self.armed = None;
+            self.m.probe("timer_fired");
+            self.do_timeout("timer");
+            if let Some(a) = self.armed { if a <= self.now && !self.m.stop { self.m.v("timer_busy_loop", "rearmed_in_the_past", format!("after firing at {} ms the timer was re-armed at {} ms", self.now / MS, a / MS), true); return; } }
+        }
+        self.now = target;
+        if fire { self.do_timeout("spurious"); }
+        if self.m.stop { return; }
+        if let Some(f) = self.m.flows.values().find(|f| f.deadline <= target) {
+            let (id, dl) = (f.id, f.deadline);
+            self.m.v("missing_close", "idle|timer_driven", format!("flow #{id} passed its idle deadline ({} ms) at {} ms and was not torn down (timer-driven shell)", dl / MS, target / MS), true);
+        }
+    }
+
+    fn new_manager(&mut self, cfg: &Cl, cap: usize) {
+        self.mgr = UdpManager::new(to_cc(cfg), cap, self.plan.max_rx, self.plan.hash_seed);
+        self.armed = None;
+        self.created = 0;
+        self.evicted = 0;
+        self.m.cur = cfg.clone();
+        self.m.cap = cap;
+        self.m.cap_high = cap;
+        self.m.max_rx = self.plan.max_rx;
+        self.m.draining = false;
+    }
+
+    fn close_all(&mut self, what: &str) {
+        let now = self.inst();
+        self.mgr.close_all(now);
+        let obs = self.drain();
+        let exp = self.m.on_close_all();
+        if !exp.close.is_empty() { self.m.probe("close_all_nonempty"); }
+        self.m.check(&exp, &obs, None);
+        self.post(what);
+    }
+
+    fn step(&mut self, i: usize, op: &Op) {
+        let t = self.now;
+        self.logf(|| format!("[{i}] t={} ms {}", t / MS, op_short(op)));
+        match op {
+            Op::Client { ip, port, len, resolve } => {
+                let src = client_addr(self.plan.v6, *ip, *port);
+                let id = self.next_dg; self.next_dg += 1;
+                let bytes = make_payload(b'C', self.plan.seed, id, *len);
+                self.th.mix(0x43); hash_addr(&mut self.th, &src); self.th.mix(*len as u64);
+                self.m.dgrams.insert(id, Dg { bytes: bytes.clone(), src: Some(src), state: DgState::Dropped });
+                self.logf(|| format!("    ClientDatagram #{id} src={src} len={len}"));
+                let now = self.inst();
+                self.mgr.handle_input(ManagerInput::ClientDatagram { src, payload: &bytes }, now);
+                let obs = self.drain();
+                let exp = self.m.on_client(src, id, *len, self.now, &obs);
+                let admitted = self.m.check(&exp, &obs, Some((src, id, self.now)));
+                self.post("client");
+                if let (Some(fid), Some(b)) = (admitted, resolve) { if !self.m.stop { self.do_resolve(fid, *b); } }
+            }
+            Op::Backend { flow, len } => {
+                let id = self.next_dg; self.next_dg += 1;
+                let bytes = make_payload(b'B', self.plan.seed, id, *len);
+                self.th.mix(0x42); self.th.mix(*flow as u64); self.th.mix(*len as u64);
+                self.m.dgrams.insert(id, Dg { bytes: bytes.clone(), src: None, state: DgState::Dropped });
+                self.logf(|| format!("    BackendDatagram #{id} flow={flow} len={len}"));
+                let now = self.inst();
+                self.mgr.handle_input(ManagerInput::BackendDatagram { flow: *flow, payload: &bytes }, now);
+                let obs = self.drain();
+                let exp = self.m.on_backend(*flow, id, *len, self.now);
+                self.m.check(&exp, &obs, None);
+                self.post("backend");
+            }
+            Op::Resolve { flow, backend } => self.do_resolve(*flow, *backend),
+            Op::Advance { ms, fire } => { self.th.mix(0x41); self.th.mix(*ms); self.advance(*ms, *fire); }
+            Op::SetCluster { cfg } => {
+                self.th.mix(0x53); self.th.mix_bytes(cl_short(cfg).as_bytes());
+                if cfg.with_port != self.m.cur.with_port && !self.m.flows.is_empty() { self.m.probe("affinity_mode_flipped_with_live_flows"); }
+                let now = self.inst();
+                self.mgr.handle_input(ManagerInput::Config(ConfigEvent::SetCluster(to_cc(cfg))), now);
+                self.m.cur = cfg.clone();
+                let obs = self.drain();
+                self.m.check(&Exp { ctx: "set_cluster".into(), ..Default::default() }, &obs, None);
+                self.post("set_cluster");
+            }
+            Op::SetMaxFlows { n } => {
+                self.th.mix(0x4d); self.th.mix(*n as u64);
+                if *n < self.m.flows.len() { self.m.probe("cap_set_below_live_count"); }
+                let now = self.inst();
+                self.mgr.handle_input(ManagerInput::Config(ConfigEvent::SetMaxFlows(*n)), now);
+                self.m.cap = *n;
+                self.m.cap_high = self.m.cap_high.max(*n);
+                let obs = self.drain();
+                self.m.check(&Exp { ctx: "set_max_flows".into(), ..Default::default() }, &obs, None);
+                self.post("set_max_flows");
+            }
+            Op::SetMaxRx { n } => {
+                self.th.mix(0x58); self.th.mix(*n as u64);
+                let now = self.inst();
+                self.mgr.handle_input(ManagerInput::Config(ConfigEvent::SetMaxRxDatagramSize(*n)), now);
+                self.m.max_rx = *n;
+                let obs = self.drain();
+                self.m.check(&Exp { ctx: "set_max_rx".into(), ..Default::default() }, &obs, None);
+                self.post("set_max_rx");
+            }
+            Op::Drain => {
+                self.th.mix(0x44);
+                if !self.m.flows.is_empty() { self.m.probe("drain_with_live_flows"); }
+                let now = self.inst();
+                self.mgr.handle_input(ManagerInput::Config(ConfigEvent::Drain), now);
+                self.m.draining = true;
+                let obs = self.drain();
+                self.m.check(&Exp { ctx: "drain".into(), ..Default::default() }, &obs, None);
+                self.post("drain");
+            }
+            Op::Abort { flow } => {
+                self.th.mix(0x61); self.th.mix(*flow as u64);
+                let now = self.inst();
+                self.mgr.abort_flow(*flow, now, CloseReason::Aborted);
+                let obs = self.drain();
+                let exp = self.m.on_abort(*flow);
+                if !exp.close.is_empty() { self.m.probe("abort_live_flow"); }
+                self.m.check(&exp, &obs, None);
+                self.post("abort");
+            }
+            Op::CloseAll => { self.th.mix(0x63); self.close_all("close_all"); }
+            Op::Rebuild { cfg, cap } => {
+                self.th.mix(0x72); self.th.mix(*cap as u64); self.th.mix_bytes(cl_short(cfg).as_bytes());
+                self.close_all("rebuild");
+                if !self.m.stop { self.final_empty("rebuild"); }
+                self.new_manager(cfg, *cap);
+                self.m.probe("rebuild");
+            }
+        }
+    }
+
+    fn final_empty(&mut self, what: &str) {
+        if self.mgr.flow_count() != 0 || self.mgr.poll_timeout().is_some() || self.created != self.evicted {
+            self.m.v("not_empty_after_teardown", what.to_string(), format!("after close_all: flow_count {}, poll_timeout {:?}, FlowCreated {} vs FlowEvicted {}", self.mgr.flow_count(), self.mgr.poll_timeout().map(|i| self.ns_of(i) / MS), self.created, self.evicted), false);
+        }
+    }
+}
+
+fn run(plan: &Plan, verbose: bool) -> (RunReport, Vec<String>) {
+    let plan = plan.clone();
+    crate::netsim::on_fresh_thread(move || {
+        let mut w = crate::world::World::new(plan.seed, crate::world::SchedCfg::default());
+        crate::world::World::install(&mut w);
+        let res = std::panic::catch_unwind(std::panic::AssertUnwindSafe(|| run_inner(&plan, verbose)));
+        crate::world::World::uninstall();
+        match res {
+            Ok(x) => x,
+            Err(e) => {
+                let msg = e.downcast_ref::<String>().cloned().or_else(|| e.downcast_ref::<&str>().map(|s| s.to_string())).unwrap_or_else(|| "panic".into());
+                let mut rep = RunReport { seed: plan.seed, family: plan.family.clone(), summary: summarize(&plan), ..Default::default() };
+                rep.violations.push(Violation::new("panic", "udp_manager", msg));
+                (rep, vec![])
+            }
+        }
+    })
+}
+
+fn run_inner(plan: &Plan, verbose: bool) -> (RunReport, Vec<String>) {
+    let base = Instant::now();
+    let m = Model {
+        seed: plan.seed, cur: plan.cluster.clone(), cap: plan.cap, cap_high: plan.cap, max_rx: plan.max_rx, draining: false,
+        flows: BTreeMap::new(), dgrams: BTreeMap::new(), hashes: BTreeMap::new(), viol: Vec::new(), probes: BTreeMap::new(), stop: false, opened: 0, closed: 0,
+    };
+    let mut r = Runner {
+        plan, mgr: UdpManager::new(to_cc(&plan.cluster), plan.cap, plan.max_rx, plan.hash_seed), base, now: 0, armed: None, m,
+        th: TraceHash::new(), log: if verbose { Some(Vec::new()) } else { None }, created: 0, evicted: 0, next_dg: 1, forwards: 0, replies: 0, closes: 0,
+    };
+    r.th.mix(plan.cap as u64); r.th.mix(plan.max_rx as u64); r.th.mix_bytes(cl_short(&plan.cluster).as_bytes()); r.th.mix(plan.v6 as u64);
+    for (i, op) in plan.ops.iter().enumerate() {
+        if r.m.stop { break; }
+        r.step(i, op);
+    }
+    // final: everything idles out, then mass teardown; the manager must be empty
+    if !r.m.stop {
+        r.logf(|| "[final] +3600 s, close_all".to_string());
+        r.advance(3_600_000, true);
+    }
+    if !r.m.stop { r.close_all("final"); }
+    if !r.m.stop {
+        r.final_empty("final");
+        if r.m.opened != r.m.closed { r.m.v("not_empty_after_teardown", "model", format!("model opened {} flows, closed {}", r.m.opened, r.m.closed), false); }
+    }
+    let mut rep = RunReport { seed: plan.seed, family: plan.family.clone(), summary: summarize(plan), ..Default::default() };
+    rep.trace_hash = r.th.0 ^ r.th.1.rotate_left(32);
+    rep.nontrivial = r.forwards > 0 && r.closes > 0;
+    rep.stats.virtual_ns = r.now;
+    let mut probes = std::mem::take(&mut r.m.probes);
+    probes.insert("ops".into(), plan.ops.len() as u64);
+    probes.insert("send_to_backend".into(), r.forwards);
+    probes.insert("send_to_client".into(), r.replies);
+    probes.insert("close_flow".into(), r.closes);
+    probes.insert("flows_admitted".into(), r.m.opened);
+    rep.probes = probes;
+    rep.violations = std::mem::take(&mut r.m.viol);
+    let mut log = r.log.take().unwrap_or_default();
+    if verbose { for v in &rep.violations { log.push(format!("VIOLATION {} [{}] {}", v.class, v.key, v.detail)); } }
+    (rep, log)
+}
+
+// ----------------------------------------------------------------------------------------- shrink
+
+fn simpler_cl(c: &Cl) -> Vec<Cl> {
+    let mut out = Vec::new();
+    let mut push = |f: &dyn Fn(&mut Cl)| { let mut q = c.clone(); f(&mut q); if q != *c { out.push(q); } };
+    push(&|q| q.pp = false);
+    push(&|q| q.pp_every = false);
+    push(&|q| q.responses = 0);
+    push(&|q| q.requests = 0);
+    push(&|q| { q.front_ms = 1000; q.back_ms = 1000; });
+    push(&|q| q.name = 1);
+    out
+}
+
+pub fn shrink_plan(p: &Plan) -> Vec<Plan> {
+    let mut out = Vec::new();
+    let n = p.ops.len();
+    // drop chunks (halves, quarters), then single operations
+    let mut chunk = n / 2;
+    while chunk >= 2 {
+        let mut s = 0;
+        while s < n { let mut q = p.clone(); q.ops.drain(s..(s + chunk).min(n)); out.push(q); s += chunk; }
+        chunk /= 2;
+    }
+    for i in 0..n { let mut q = p.clone(); q.ops.remove(i); out.push(q); }
+    // simplify arguments
+    for i in 0..n {
+        let mut alts: Vec<Op> = Vec::new();
+        match &p.ops[i] {
+            Op::Client { ip, port, len, resolve } => {
+                if *len > HDR { alts.push(Op::Client { ip: *ip, port: *port, len: HDR, resolve: *resolve }); }
+                if *ip > 0 { alts.push(Op::Client { ip: 0, port: *port, len: *len, resolve: *resolve }); }
+                if *port > 0 { alts.push(Op::Client { ip: *ip, port: 0, len: *len, resolve: *resolve }); }
+                if let Some(b) = resolve { if *b > 0 { alts.push(Op::Client { ip: *ip, port: *port, len: *len, resolve: Some(0) }); } }
+            }
+            Op::Backend { flow, len } => { if *len > HDR { alts.push(Op::Backend { flow: *flow, len: HDR }); } }
+            Op::Resolve { flow, backend } => { if *backend > 0 { alts.push(Op::Resolve { flow: *flow, backend: 0 }); } }
+            Op::Advance { ms, fire } => {
+                if *fire { alts.push(Op::Advance { ms: *ms, fire: false }); }
+                if *ms > 1 { alts.push(Op::Advance { ms: *ms / 2, fire: *fire }); }
+                if *ms % 100 != 0 && *ms > 100 { alts.push(Op::Advance { ms: *ms / 100 * 100, fire: *fire }); }
+            }
+            Op::SetCluster { cfg } => { for c in simpler_cl(cfg) { alts.push(Op::SetCluster { cfg: c }); } }
+            Op::Rebuild { cfg, cap } => { for c in simpler_cl(cfg) { alts.push(Op::Rebuild { cfg: c, cap: *cap }); } }
+            _ => {}
+        }
+        for a in alts { let mut q = p.clone(); q.ops[i] = a; out.push(q); }
+    }
+    if let Some(Op::SetCluster { cfg }) = p.ops.first() { let mut q = p.clone(); q.cluster = cfg.clone(); q.ops.remove(0); out.push(q); }
+    for c in simpler_cl(&p.cluster) { let mut q = p.clone(); q.cluster = c; out.push(q); }
+    if p.v6 { let mut q = p.clone(); q.v6 = false; out.push(q); }
+    if p.max_rx != 1500 { let mut q = p.clone(); q.max_rx = 1500; out.push(q); }
+    if p.cap != 8 { let mut q = p.clone(); q.cap = 8; out.push(q); }
+    if p.hash_seed != 1 { let mut q = p.clone(); q.hash_seed = 1; out.push(q); }
+    out
+}
+
 impl Property for C19 {
     fn id(&self) -> &'static str { "C19" }
-    fn runs(&self, _tier: Tier) -> u64 { 0 }
-    fn gen_plan(&self, _seed: u64, _tier: Tier) -> Value { Value::Null }
-    fn run_plan(&self, _plan: &Value) -> RunReport { RunReport { harness_error: Some("not implemented".into()), ..Default::default() } }
-    fn descr(&self) -> Descr { Descr { level: "exploration", rule: "", assumptions: vec![], real: vec![], stub: vec![], not_covered: vec![] } }
+    fn runs(&self, tier: Tier) -> u64 { match tier { Tier::Quick => 600_000, Tier::Thorough => 12_000_000 } }
+    fn gen_plan(&self, seed: u64, tier: Tier) -> Value { serde_json::to_value(generate(seed, tier)).unwrap() }
+    fn run_plan(&self, plan: &Value) -> RunReport {
+        let p: Plan = match serde_json::from_value(plan.clone()) { Ok(p) => p, Err(e) => return RunReport { harness_error: Some(format!("bad plan: {e}")), ..Default::default() } };
+        run(&p, false).0
+    }
+    fn shrink(&self, plan: &Value) -> Vec<Value> {
+        let Ok(p) = serde_json::from_value::<Plan>(plan.clone()) else { return vec![] };
+        shrink_plan(&p).into_iter().map(|p| serde_json::to_value(p).unwrap()).collect()
+    }
+    fn debug_plan(&self, plan: &Value) -> String {
+        let p: Plan = match serde_json::from_value(plan.clone()) { Ok(p) => p, Err(e) => return format!("bad plan: {e}") };
+        let (rep, log) = run(&p, true);
+        format!("{}\n{}\nprobes: {:?}\ntrace_hash {:016x} nontrivial {}\n", summarize(&p), log.join("\n"), rep.probes, rep.trace_hash, rep.nontrivial)
+    }
+    fn descr(&self) -> Descr {
+        Descr {
+            level: "exploration",
+            rule: "seeded operation histories (3-90 operations, swarm-weighted: client datagrams from 1-3 IPs x 1-3 ports, backend datagrams and (stale) resolutions by flow id, clock advances on/around the idle timeouts with a timer-driven shell, cap changes below the live count, cluster reconfiguration incl. affinity-mode flips / no cluster / PPv2 / request+response caps, max_rx changes, drain, abort, close_all, listener rebuild; IPv4 and IPv6); every payload unique; a run is non-trivial when >=1 datagram was forwarded to a backend and >=1 flow was torn down; distinct = distinct hashes of the operation + Output trace",
+            assumptions: vec![
+                "the harness plays the I/O shell: one-shot timer armed from the ArmTimer stream, BackendResolved answered synchronously or late/stale as the plan says",
+                "release semantics (the manager's debug_assert invariant sweep is compiled out; the oracle does not rely on it)",
+                "documented behaviours taken as specification: one-slot newest-wins buffer while AwaitingBackend; oversize datagrams are dropped (never cut); replies go to the address that opened the flow; idle deadline = last datagram + front/back timeout of the flow's captured config, closed when deadline <= now",
+                "accepted as either/or where documents disagree: client datagram of a source with a live flow while no cluster is configured (drop NoBackend or forward); PPv2 source address on a SOURCE_IP flow fed from another port (flow owner or actual sender)",
+            ],
+            real: vec!["sozu_lib::protocol::udp::UdpManager / UdpFlow / proxy_protocol (sans-io core, public API: handle_input, handle_timeout, abort_flow, close_all, poll_output, poll_timeout, flow_count)"],
+            stub: vec!["I/O shell (sockets, timer wheel, BackendMap load balancing: backend choice is dictated by the plan)", "clock (injected Instant on a virtual base)", "clients and backends (unique-payload datagram generators)"],
+            not_covered: vec![
+                "the I/O shell lib/src/udp.rs over real sockets (upstream socket demux via in_flight_client/client_key_to_flow, write queues, recv_buf sizing, timer wheel integration, gauge updates): separate netsim tier",
+                "BackendMap HRW/Maglev selection and health checks (the plan picks backends arbitrarily; only 'affinity hash is a function of the key' is checked)",
+                "mixed-family PPv2 (AF_UNSPEC fallback) and custom FlowKeyExtractor implementations",
+                "empty backend datagrams (not generated: not attributable)",
+            ],
+        }
+    }
 }
